@@ -17,7 +17,8 @@ from ..fakeserial import EBB3Board, FakePort, Profile, QUIET
 PROPERTY = "C04"
 
 EXC_KINDS = ("SerialException", "SerialTimeoutException", "PortNotOpenError", "OSError",
-             "RuntimeError")
+             "RuntimeError", "OSError_EAGAIN",
+        "InterruptedError", "BrokenPipeError")
 # (what pyserial back ends raise, plus RuntimeError, which the library's own except clauses
 # name among the serial I/O exceptions)
 FAULTS = Profile(write_exc=EXC_KINDS, read_exc=EXC_KINDS,
